@@ -11,6 +11,7 @@ import logging
 from datetime import timedelta
 from typing import TYPE_CHECKING
 
+from stabilize.dag.readiness import PredicatePhase, evaluate_readiness
 from stabilize.handlers.base import StabilizeHandler
 from stabilize.models.status import CONTINUABLE_STATUSES, WorkflowStatus
 from stabilize.queue.messages import (
@@ -226,9 +227,18 @@ class CompleteWorkflowHandler(StabilizeHandler[CompleteWorkflow]):
         for stage in stages:
             if stage.status == WorkflowStatus.RUNNING:
                 return True
-            if stage.status == WorkflowStatus.NOT_STARTED and stage.all_upstream_stages_complete():
+            if stage.status == WorkflowStatus.NOT_STARTED and self._can_still_start(stage):
                 return True
         return False
+
+    def _can_still_start(self, stage: StageExecution) -> bool:
+        """Would a StartStage for this NOT_STARTED stage start it now?
+
+        Uses the stage's own join rule: a first-of / N-of-M / OR join is ready
+        with halted upstreams as long as enough others completed, so its
+        StartStage may still be in flight.
+        """
+        return evaluate_readiness(stage, stage.upstream_stages()).phase == PredicatePhase.READY
 
     def _should_override_success(self, execution: Workflow) -> bool:
         """Check if success should be overridden to failure."""
